@@ -7,6 +7,7 @@ func init() {
 		func(r *Report) {
 			ruleEffect(r)
 			ruleLocks(r)
+			ruleByteAPICopies(r)
 			ruleValueBuffersImmutable(r)
 			rulePoolPutOnce(r)
 		})
